@@ -109,6 +109,42 @@ CHECKS = {
          "write rate limiting not exercised.",
     technique="TLA+ access matrix + TLC enumeration; exhaustive matrix replay through the real adapters; TLC trace validation",
     ref="5.8"),
+ "C05": dict(
+    level="model_checking",
+    text="TLC exhaustively checks the notification pipeline model (Runtime.tla: aggregated watchers, watchCh, the dedup "
+         "goroutine with the single map bouncing between `empty` and `ch`, the delivery goroutine, capacity-1 event channels "
+         "with per-input destroy-ready filters, queue controllers with primary / mapped / mapped-destroy-ready routing and "
+         "start-up listing, late registration, cached kinds, a fault budget) for `quiescent => every controller observed the "
+         "current state of its inputs` and `every mapped change reached the primaries its mapper names`, on five controller "
+         "configurations. TLC-simulated schedules (writes, batch flushes, reconcile releases, late starts, failing reconciles) "
+         "drive the real runtime with probe controllers in a synctest bubble through an interposing CoreState that holds and "
+         "merges aggregated watch batches; what every reconcile read and a final quiet point are judged by TLC (TraceRuntime).",
+    note="Trusted: TLC, synctest quiescence (quiet = nothing recorded during 3 virtual minutes after everything was released). "
+         "Dedup/delivery goroutine steps run eagerly on the code; their interleavings are exhaustive only in the model.",
+    technique="TLA+ pipeline model + TLC; schedule replay on the real runtime in a synctest bubble; TLC trace validation",
+    ref="5.5"),
+ "C15": dict(
+    level="model_checking",
+    text="White box: Cache.tla (append until Bootstrapped, put/remove, blocked readers, teardown-bound contexts) is checked "
+         "exhaustively and TLC-simulated operation sequences drive the real ResourceCache (verif facade) in a bubble; TLC "
+         "judges that reads issued before Bootstrapped block and then return the complete contents, later reads return the "
+         "current contents, contexts are cancelled iff the resource is/was torn down, removed or absent (TraceCache). "
+         "Black box: runtime schedules with cached kinds; cached reads after every step must be version-monotone per "
+         "incarnation, controllers reading through the cache must not lose wake-ups, and cached = uncached at the quiet point.",
+    note="Trusted: as C05. Filtered cached lists are exercised by C14's selector table at the cache site.",
+    technique="TLA+ cache model + pipeline model, TLC; white-box and black-box replay; TLC trace validation",
+    ref="5.15"),
+ "C16": dict(
+    level="model_checking",
+    text="Pipeline model with a fault budget (failing reconciles / items) checked for convergence; Backoff.tla for growth and "
+         "reset. On the real runtime: TLC-scheduled failing and panicking reconciles followed by the C05 quiet-point judgement; "
+         "cancellation at a TLC-schedule index chosen per behaviour and injected Errored watch events, judged for: Run returns, "
+         "returns the watch error (and no error on plain cancel), no reconcile activity and no leaked goroutine after Run "
+         "returned; restart sequences (error / panic / reset) of a controller, a run hook and a task judged against the "
+         "back-off envelope with a fresh reconcile after every restart (TraceBackoff).",
+    note="Trusted: as C05; goroutine leak measured by process goroutine count inside the bubble.",
+    technique="TLA+ pipeline/back-off models + TLC; fault-schedule replay in virtual time; TLC trace validation",
+    ref="5.16"),
 }
 
 NOT_YET = "check not built yet in this round (planned, see DESIGN.md section 5)"
